@@ -193,6 +193,14 @@ def install(I):
         return (days * 86400 + hr * 3600 + mi * 60 + sec) & ((1 << 64) - 1)
     M['gmtime_r'] = gmtime_r_; M['timegm'] = timegm_
     M['prctl'] = lambda I, *a: 0              # thread naming
+    # single-threaded runs: an uncontended mutex, condition variables nobody waits on (a wait would block forever: refused)
+    M['pthread_mutex_lock'] = lambda I, m: 0; M['pthread_mutex_unlock'] = lambda I, m: 0
+    for nme in ('_ZNSt18condition_variableC1Ev', '_ZNSt18condition_variableC2Ev', '_ZNSt18condition_variableD1Ev', '_ZNSt18condition_variableD2Ev',
+                '_ZNSt18condition_variable10notify_allEv', '_ZNSt18condition_variable10notify_oneEv'): M[nme] = lambda I, cv: None
+    def cv_wait(I, cv, lk): raise Unsupported('condition_variable::wait in a single-threaded run (would block)')
+    M['_ZNSt18condition_variable4waitERSt11unique_lockISt5mutexE'] = cv_wait
+    def thread_join(I, t): raise Unsupported('std::thread::join (no threads are modelled)')
+    M['_ZNSt6thread4joinEv'] = thread_join
     # C11 7.22.1.4 strtoll / strtoul for base 10 in the "C" locale: white space, optional sign, digits, clamp + ERANGE, *endptr
     def is_space(I, b):
         if not isinstance(b, Sym): return b in (32, 9, 10, 11, 12, 13)
